@@ -7,8 +7,16 @@ COMMON_ASSUME = [
     "reads are consistent snapshots (controller-runtime fake client); informer cache staleness is not modelled",
 ]
 
+TB = "Trusted: Lean 4.33 kernel (axioms audited per theorem: at most propext, Classical.choice, Quot.sound), tools/extract, the harness/driver comparison and its generators (differential testing: a change no generated input exposes is not seen). "
+
+HOOK_COMMITS = ["856b7ec"]
+
+NOT_APPLICABLE = []
+
 PROPS = {
     "C03": {
+        "level_text": 'Lean theorems C03_budget / C03_cap / C03_unavailable_first / C03_percent / C03_paused_no_delete for every list of targeted nodes (any length, any order = any Go map iteration order), every strategy and clock, about the model of ManageDeployment; the budget kernel is the translated limits.go (C03_kernel_is_source). Tied to the code by differential execution of the real ManageDeployment and CalculatePodToCreateAndDelete on every run.',
+        "level_note": TB + 'Modelled by hand (tied by correspondence, not verified): the ManageDeployment loop and pod classification. Assumes float64 ceil = integer ceil below 2^45 and minReadySeconds = 0.',
         "streams": [("limits", 3000, 60000), ("manage_deployment", 1500, 30000)],
         "replay_attempts": 40,
         "trusted_base": [
@@ -19,11 +27,44 @@ PROPS = {
         "assumptions": COMMON_ASSUME + ["minReadySeconds is 0 at every call site, so availability = Ready condition"],
     },
     "C05": {
+        "level_text": "Lean theorems C05_only_if (promotion away from an existing active replica set implies the statement's rule, for every strategy/annotations/conditions/clock), C05_failed_never_by_time, C05_manual_never_by_time, C05_paused_never_by_time, C05_valid_promotes, C05_adopt_when_missing, C05_no_canary, C05_requeue about the model of selectCurrentReplicaSet; tied to the code by running the real function on the full combination lattice with exact instants (-1ns/0/+1ns around both durations).",
+        "level_note": TB + 'Modelled by hand: selectCurrentReplicaSet and the annotation/condition readers. Assumes the spec passed the CRD enum and ValidateExtendedDaemonSetSpec, as Reconcile guarantees before selecting.',
         "streams": [("select_current", 4000, 80000)],
         "trusted_base": [
             "model of selectCurrentReplicaSet / IsCanaryDeployment{Ended,Paused,Valid,Failed} (lean/EdsModel/EdsCtl.lean, CanaryPred.lean) written by hand from controller.go / utils.go; tied by the select_current stream (exact instants: duration and noRestartsDuration at -1ns/0/+1ns)",
             "time.Time.Sub saturation is not modelled (differences stay far below 2^63 ns)",
         ],
         "assumptions": COMMON_ASSUME + ["spec passed the CRD schema (validationMode is auto or manual) and ValidateExtendedDaemonSetSpec (no duration in manual mode), as Reconcile guarantees before selecting"],
+    },
+    "C16": {
+        "level_text": "Lean theorems about the model of Default*/IsDefaulted*/Validate* (C16_validate_total: validation of a defaulted spec never dereferences nil; further defaulting theorems as they land) for every spec of the model's type; the real Default, IsDefaulted and Validate run with recover() over the boundary lattice of every strategy field and are compared with the model, and the specification predicates (recognised, idempotent, preserves-user, fills, no-crash) are evaluated on the real outputs.",
+        "level_note": TB + 'Modelled by hand: the defaulting and validation functions; the CRD schema is transcribed by hand into the generators. Coverage-guided fuzzing named in the quantifier is outside this technique.',
+        "streams": [("defaults", 4000, 120000), ("max_creation", 2000, 40000)],
+        "trusted_base": [
+            "model of Default*/IsDefaulted*/ValidateExtendedDaemonSetSpec (lean/EdsModel/Defaults.lean) written by hand; tied by the defaults stream over the boundary lattice of every strategy field with recover() around the real functions",
+            "CRD schema constraints are transcribed by hand into the generators (validationMode enum, pointer optionality)",
+        ],
+        "partial": ["coverage-guided fuzzing of the serialized spec named in the quantifier is outside this technique; the lattice product is sampled (quick) / widely sampled (thorough)"],
+        "assumptions": COMMON_ASSUME,
+    },
+    "C18": {
+        "level_text": 'Lean theorems C18_missing_reference_error and C18_only_valid_used (the setting attached to a node is valid, references this ExtendedDaemonSet, matches the node; at most one per node by construction), with mutual exclusion / order independence theorems as they land; the real searchPossibleConflict runs on populations of <= 4 settings x <= 4 labelled nodes in shuffled list order against the model, and the lonely-valid clause is evaluated on its output.',
+        "level_note": TB + "Modelled by hand: searchPossibleConflict, the setting Reconcile status function and getNodeList's choice; label-selector matching re-implemented in the model.",
+        "streams": [("setting_conflict", 4000, 80000)],
+        "trusted_base": [
+            "model of searchPossibleConflict / setting Reconcile / getNodeList setting choice (lean/EdsModel/SettingCtl.lean) written by hand; tied by the setting_conflict stream (<= 4 settings x <= 4 labelled nodes, shuffled list order)",
+            "metav1.LabelSelectorAsSelector / labels.Selector.Matches re-implemented in the model (In, NotIn, Exists, DoesNotExist)",
+        ],
+        "assumptions": COMMON_ASSUME + ["setting names are unique within a namespace (API server)"],
+    },
+    "C20": {
+        "level_text": 'Lean theorems C20_pairs (the label-info pairs are a permutation of {(sanitize k, v)} for every label map, including colliding keys and the empty map), C20_lengths, C20_sanitize_legal, C20_sanitize_id; the real BuildInfoLabels / sanitizeLabelName run on label maps with dots, slashes, dashes, collisions, non-ASCII and nil maps against the model.',
+        "level_note": TB + 'Modelled by hand: BuildInfoLabels and the sanitiser (Go regexp replaced rune-wise). The gauge families of metrics.go are compared with status fields by the metrics stream when registered.',
+        "streams": [("labels", 3000, 60000)],
+        "trusted_base": [
+            "model of BuildInfoLabels / sanitizeLabelName (lean/EdsModel/Metrics.lean) written by hand; tied by the labels stream (dots, slashes, dashes, colliding keys, empty and nil maps, non-ASCII)",
+            "Go regexp [^a-zA-Z0-9_] replaced rune-wise; Lean's Char.isAlphanum restricted to ASCII",
+        ],
+        "assumptions": COMMON_ASSUME,
     },
 }
